@@ -158,8 +158,12 @@ func c09Run(c c09Case) error {
 					}
 					tp := mk()
 					tp.Fault = &tape.Fault{AtRead: k, Deliver: deliver, Kind: kindE, Persist: persist}
+					tp.MaxReads = R + 4000
 					r := c09Once(g, tp)
 					ev.Leaves(1)
+					if r.Cap && persist {
+						return fmt.Errorf("random source failed at read %d of %d and keeps failing; generation did not abort but went on reading (%d further reads)", k, R, tp.NReads-k)
+					}
 					if r.HavePw {
 						return fmt.Errorf("random source failed at read %d of %d (delivered %d bytes, error kind %d, persistent=%v) and Generate still returned the password %q", k, R, deliver, kindE, persist, r.Key)
 					}
@@ -203,7 +207,7 @@ func c09Gen(t *rapid.T) c09Case {
 		}
 		c.Char = &sp
 	} else {
-		w := gen.WL(t, gen.WLOpts{List: gen.WordListOpts{Min: 1, Max: 8}, MaxLen: 8, UnknownCap: true})
+		w := gen.WL(t, gen.WLOpts{List: gen.WordListOpts{Min: 1, Max: 8}, MaxLen: 14, UnknownCap: true})
 		c.WL = &w
 	}
 	n := rapid.IntRange(1, 3).Draw(t, "nchunkplans")
